@@ -168,6 +168,7 @@ end compile
 structure Its (α : Type) where
   b : List (List α)
   a : List (List α)
+  deriving DecidableEq, Repr
 
 /-- `iter(self.numpoly[idx])` / `iter(self.denpoly[idx])` -/
 def itsOf (b as : List (Coef α)) : Its α := ⟨b.map Coef.items, as.map Coef.items⟩
@@ -275,6 +276,49 @@ def filterCallTV (numPairs denPairs : List (Int × Coef α)) (mem : Mem α) (zer
   match normalise (mkPoly numPairs) (mkPoly denPairs) with
   | .error e => .error e
   | .ok (num, den) => callTV num den mem zero xs
+
+/-! ### the filter OBJECT across two calls
+
+`__call__` is a method of an object that holds `numpoly` / `denpoly`, and a Stream coefficient is
+an iterator owned by that object.  A history "call, consume the output to its end, call again" is
+modelled by the state the first call leaves:
+
+* constant gain: nothing is assigned; `iter(self.numpoly[idx])` hands the Stream's own iterator to
+  the generator (`Stream.__iter__` returns `self._data`), so each coefficient Stream is left where
+  the generated loop left it (`Its`);
+* Stream gain: `den = self.denpoly` is an ALIAS, so `den[0] = 0` — `Poly.__setitem__` with the zero
+  value deletes the entry — is executed on the filter object itself.  The following `den *= …`
+  rebinds the local name to a new `Poly` (`Poly` defines no `__imul__`), so `den[0] = 1` and the
+  rewritten coefficients do not leak back.  The causality test raises before any of this. -/
+
+/-- `self.denpoly` after `__call__` returned or raised -/
+def denAfterCall (num den : Terms (Coef α)) : Terms (Coef α) :=
+  if !checkCausal num den then den
+  else
+    match coefAt den 0 with
+    | .strm _ => ALV.C07.setItem den 0 0
+    | .const _ => den
+
+/-- every Stream coefficient replaced by what the loop left of it; `its` = remaining items indexed
+by `delay - off` (`b{k}` ↦ `its.b[k]`, `a{k}` ↦ `its.a[k-1]`) -/
+def advance (off : Nat) (t : Terms (Coef α)) (its : List (List α)) : Terms (Coef α) :=
+  t.map fun kv =>
+    match kv.2 with
+    | .strm _ => (kv.1, Coef.strm (its.getD (kv.1.toNat - off) []))
+    | .const c => (kv.1, Coef.const c)
+
+/-- two calls of the SAME filter object `ZFilter`-normalised to `(num, den)`, the first output
+consumed to its end before the second call.  (After a Stream-gain call the positions of the
+coefficient Streams do not matter: the second call raises before it reads anything.) -/
+def callTwice (num den : Terms (Coef α)) (mem1 : Mem α) (zero1 : α) (xs1 : List α)
+    (mem2 : Mem α) (zero2 : α) (xs2 : List α) :
+    Except Err (List α × Its α) × Except Err (List α × Its α) :=
+  let r1 := callTV num den mem1 zero1 xs1
+  let obj2 : Terms (Coef α) × Terms (Coef α) :=
+    match coefAt den 0, r1 with
+    | .const _, .ok (_, its) => (advance 0 num its.b, advance 1 den its.a)
+    | _, _ => (num, denAfterCall num den)
+  (r1, callTV obj2.1 obj2.2 mem2 zero2 xs2)
 
 end call
 
